@@ -94,6 +94,11 @@ revert-F11 m_skip_one_dispatch_n7
 revert-F12 u_owned_clone_loaded_keeps_raw
 revert-F13 u_root_value_padding_overrun
 revert-F14 u_skip_number_unchecked_span_n7
+C05-6 u_write_string_fast_n2
+C12-6 m_skip_array_n6
+C13-6 u_owned_from_lazy_after_as_str
+C20-6 u_error_classify
+revert-F15 u_read_from_faststr_outlives_reader
 LIST
 wait
 python3 tools/seeded_table.py
